@@ -540,27 +540,24 @@ class BaseCurve(Intface_BaseCurve):
         if oldctrlpoints is None and oldweights is None:
             self.knotvector = newknotvector
             return
-        self.ctrlpoints = None
-        self.weights = None
-        self.knotvector = newknotvector
+        newcurve = self.__class__(newknotvector)
         if oldweights is None:
-            self.ctrlpoints = np.dot(matrix, oldctrlpoints)
-            return
-        newweights = np.dot(matrix, oldweights)
-        self.weights = newweights
-
-        if oldctrlpoints is not None:
-            oldctrlpoints = list(oldctrlpoints)
-            for i, weight in enumerate(oldweights):
-                oldctrlpoints[i] *= weight
-            newctrlpoints = []
-            for i, line in enumerate(matrix):
-                newctrlpoints.append(0 * oldctrlpoints[0])
-                for j, point in enumerate(oldctrlpoints):
-                    newpoint = line[j] * point
-                    newpoint /= self.weights[i]
-                    newctrlpoints[i] += newpoint
-            self.ctrlpoints = newctrlpoints
+            newcurve.ctrlpoints = np.dot(matrix, oldctrlpoints)
+        else:
+            newcurve.weights = np.dot(matrix, oldweights)
+            if oldctrlpoints is not None:
+                numerators = [wi * pt for wi, pt in zip(oldweights, oldctrlpoints)]
+                newweights = newcurve.weights
+                newctrlpoints = []
+                for i, line in enumerate(matrix):
+                    newpoint = 0 * numerators[0]
+                    for j, point in enumerate(numerators):
+                        newpoint = newpoint + (line[j] * point) / newweights[i]
+                    newctrlpoints.append(newpoint)
+                newcurve.ctrlpoints = newctrlpoints
+        self.__knotvector = newcurve.knotvector
+        self.__ctrlpoints = newcurve.ctrlpoints
+        self.__weights = newcurve.weights
 
 
 class Curve(BaseCurve):
